@@ -69,10 +69,17 @@ class Ctx(object):
         return self._cg
 
     def graph(self, body, flags=None):
+        """CFG view used by the cut queries; by default refined by the body's constant-only bool locals"""
+        if flags is None:
+            flags = flow.auto_flags(body)
+            if len(flags) > 12:
+                flags = flags[:12]
         k = (body.key, tuple(flags or ()))
         g = self._gr.get(k)
         if g is None:
             g = flow.Graph(body, flags)
+            if len(g.nodes) > 40 * max(1, len(body.blocks)):
+                g = flow.Graph(body, [])
             self._gr[k] = g
         return g
 
